@@ -59,10 +59,10 @@ def quality_matches(what, got):
 
 NAMES = ["Anton", "Berta", "Çağla", "Dörte", "Émile", "Fatima", "Günther", "Hồ", "Ines", "João", "Καλλιόπη", "李"]
 FAMILY = ["Administrator", "Beispiel", "Çelik", "Müller-Lüdenscheidt", "O'Neill", "ß", "Zimmermann", "García"]
-NRS = ["1", "2", "10", "α", "A1", "3b", "11", "Ω-2", "9", "12", "100", "ζ", "1a", "20", ""]
+NRS = ["1", "2", "10", "α", "A1", "3b", "11", "Ω-2", "9", "12", "100", "ζ", "1a", "20", "", "07", "7", "0", "0.5", "-1", ".5", " 7", "*", "00"]
 
 
-def gen_export(r, rich=False, pre=False):
+def gen_export(r, rich=False, pre=False, many=False):
     """`pre`: many existing assignments (as attendee, as instructor of the same or of another course),
     tight sizes, --ignore-assigned forced"""
     if pre:
@@ -94,6 +94,10 @@ def gen_export(r, rich=False, pre=False):
     # courses
     ncourses = r.randint(2, 8)
     course_ids = r.sample([1, 2, 3, 4, 5, 6, 7, 8, 9, 10, 11, 12, 100], ncourses)
+    if many:
+        # many courses, several sharing a number (ties keep the export's key order)
+        ncourses = r.randint(21, 34)
+        course_ids = r.sample(list(range(1, 60)) + [100, 101, 1000], ncourses)
     courses = {}
     for cid in course_ids:
         segs = {}
@@ -106,7 +110,7 @@ def gen_export(r, rich=False, pre=False):
                     segs[str(t)] = False
             elif x < 0.6:
                 segs[str(t)] = r.random() < 0.8
-        c = {"title": f"Kurs {cid}", "description": "…", "nr": r.choice(NRS), "shortname": r.choice(["Heldentum", "Kabarett", "Kurz", "Lang", "Ωmega"]) + str(cid),
+        c = {"title": f"Kurs {cid}", "description": "…", "nr": (r.choice(["1", "2", "3", "7", "7", "10", "10", "α"]) if many else r.choice(NRS)), "shortname": r.choice(["Heldentum", "Kabarett", "Kurz", "Lang", "Ωmega"]) + str(cid),
              "instructors": "N.N.", "notes": None, "fields": {}, "segments": segs}
         mx = r.choice([None, None, 4, 6, 10, "missing"] if rich else [None, None, 0, 1, 2, 3, 4, 6, 10, "missing"])
         mn = r.choice([None, 0, 0, 1, 2, "missing"] if rich else [None, None, 0, 0, 1, 2, 3, "missing"])
@@ -487,10 +491,10 @@ def problem_of(doc, opts):
 
 def stream_cdedb_read(seed, tier, workdir, stream):
     r = random.Random(seed * 7919 + 1)
-    n = scale(tier, 400, 6000)
+    n = scale(tier, 400, 20000)
     cases = []
     for i in range(n):
-        doc, opts, info = gen_export(r, pre=(i % 5 == 1))
+        doc, opts, info = gen_export(r, pre=(i % 5 == 1), many=(i % 10 == 4))
         what = None
         if i % 4 == 3:
             what = corrupt_export(r, doc, opts, info)
@@ -568,7 +572,7 @@ def lines_cdedb_read(cases, workdir, stream):
 
 def stream_cdedb_pairs(seed, tier, workdir, stream):
     r = random.Random(seed * 104729 + 5)
-    n = scale(tier, 250, 4000)
+    n = scale(tier, 250, 10000)
     cases = []
     for i in range(n):
         doc, opts, info = gen_export(r)
@@ -676,7 +680,7 @@ def consistent(export, imp, opts, info):
 
 def stream_e2e_cde(seed, tier, workdir, stream):
     r = random.Random(seed * 15485863 + 11)
-    n = scale(tier, 140, 2500)
+    n = scale(tier, 140, 6000)
     cases = []
     for i in range(n):
         doc, opts, info = gen_export(r, rich=(i % 3 != 2), pre=(i % 4 == 1))
@@ -797,7 +801,7 @@ def tag(v):
 
 def stream_cli_simple(seed, tier, workdir, stream):
     r = random.Random(seed * 32452843 + 3)
-    n = scale(tier, 120, 2000)
+    n = scale(tier, 120, 5000)
     cases = []
     for i in range(n):
         doc, rooms = gen_simple(r, rooms_mode=1, big=(tier == "thorough" and i % 4 == 0))
@@ -997,7 +1001,7 @@ def corrupt_simple(r, doc, what=None):
 def stream_cli_malformed(seed, tier, workdir, stream):
     r = random.Random(seed * 49979687 + 17)
     # systematic: every single-field corruption on `bases` fresh base documents
-    bases = scale(tier, 2, 40)
+    bases = scale(tier, 2, 80)
     cases = []
     for b in range(bases):
         for w in SIMPLE_CORRUPTIONS:
